@@ -1016,9 +1016,15 @@ impl ElementRaw {
             // compare the new element to the existing elements
             for (idx, content_item) in self.content.iter().enumerate() {
                 if let ElementContent::Element(subelement) = content_item {
-                    let (_, existing_element_indices) = elemtype
+                    // an existing sub element may be unknown in this version (lenient load): then locate it in any version
+                    let Some((_, existing_element_indices)) = elemtype
                         .find_sub_element(subelement.element_name(), version as u32)
-                        .unwrap();
+                        .or_else(|| elemtype.find_sub_element(subelement.element_name(), u32::MAX))
+                    else {
+                        // completely unknown sub elements do not constrain the insert position
+                        end_pos = idx + 1;
+                        continue;
+                    };
                     let group_type = elemtype.find_common_group(&new_element_indices, &existing_element_indices);
                     match group_type.content_mode() {
                         ContentMode::Sequence => {
